@@ -281,6 +281,9 @@ func C01(ctx *core.Ctx) error {
 			"full_bytes_len": r.Sc.FullBytesLen, "strategy": r.Sc.Strategy, "refused": r.Sc.ExpectRefuse}, 8)
 	}
 	cov.Set("runs", len(recs))
+	if err := resultSurvivalPhase(ctx, cov, pump.EcSigning); err != nil {
+		return err
+	}
 	return ctx.WriteEvidence("model_checking",
 		"one case = one real ECDSA signing session (key threshold, signer subset incl. |S|>t+1 and permuted ids, digest class, fullBytesLen, schedule); "+
 			"verdict by an independent ECDSA verifier/recovery written in the harness; every run trace-validated against Engine_Trace.tla; "+
@@ -364,6 +367,9 @@ func C02(ctx *core.Ctx) error {
 			"full_bytes_len": r.Sc.FullBytesLen, "strategy": r.Sc.Strategy}, 8)
 	}
 	cov.Set("runs", len(recs))
+	if err := resultSurvivalPhase(ctx, cov, pump.EdSigning); err != nil {
+		return err
+	}
 	return ctx.WriteEvidence("model_checking",
 		"one case = one real EdDSA signing session (key (n,t) from a real keygen, signer subset incl. |S|>t+1 and permuted ids, message class, fullBytesLen, schedule); "+
 			"verdict by crypto/ed25519.Verify of the Go standard library over the echoed message and the RFC 8032 encoding of the group key computed by the harness; "+
